@@ -50,16 +50,19 @@ def run(ctx):
   kbase = jax.random.PRNGKey(ctx.seed + 11)
   replayed = 0
   for ci, c in enumerate(cases):
-    lo, hi, v, L = c['lo'], c['hi'], fr(c['v']), c['L']
-    fl, ce, t = fr(c['fl']), fr(c['ce']), fr(c['t'])
+    # the quantizer commutes with positive scaling (exactly so for powers of two): every third case is replayed with a
+    # tiny range (2^-50 of the specification's), every third with a large one
+    scale = (1.0, 2.0 ** -50, 2.0 ** 40)[ci % 3]
+    lo, hi, v, L = c['lo'] * scale, c['hi'] * scale, fr(c['v']) * scale, c['L']
+    fl, ce, t = fr(c['fl']) * scale, fr(c['ce']) * scale, fr(c['t'])
     vec = np.full((n + 2,), v, np.float32)
     vec[0], vec[1] = lo, hi
     key = jax.random.fold_in(kbase, ci)
     out = np.asarray(cp.uniform_stochastic_quantize(jnp.array(vec), L, key), np.float64)[2:]
-    cfg = dict(quantizer='uniform_stochastic_quantize', lo=lo, hi=hi, v=c['v'], levels=L)
+    cfg = dict(quantizer='uniform_stochastic_quantize', lo=lo, hi=hi, v=c['v'], levels=L, scale=scale)
     replayed += 1
     ctx.case(key=('u', lo, hi, tuple(c['v']), L), nontrivial=fl != ce)
-    tolv = 4e-7 * max(1.0, abs(lo), abs(hi))
+    tolv = 4e-7 * max(scale, abs(lo), abs(hi))
     is_fl, is_ce = np.abs(out - fl) <= tolv, np.abs(out - ce) <= tolv
     if not np.all(np.isfinite(out)):
       ctx.violation('uniform:nonfinite', f'non-finite output for {cfg}', replay={'cfg': cfg})
@@ -163,6 +166,25 @@ def run(ctx):
       nagg += 1
       if np.array_equal(np.asarray(a['w']), np.asarray(b_['w'])):
         ctx.violation(f'agg:{name}:same-randomness-across-clients', f'{name}: two clients of one round are quantized with the same randomness', replay={'aggregator': name})
+    # every (round, client position) slot draws with its own randomness: identical trees, one-hot weights isolate the
+    # quantised value of one slot; the state is threaded through three rounds
+    if name != 'drive':
+      st = agg.init()
+      twin = trees[1]
+      slots = {}
+      for rnd in range(3):
+        nxt = None
+        for pos in range(3):
+          o, s2 = agg.apply([(b'c%d' % i, twin, 1.0 if i == pos else 0.0) for i in range(3)], st)
+          slots[(rnd, pos)] = np.asarray(o['w'])
+          nxt = nxt or s2
+        st = nxt
+      nagg += 1
+      names = sorted(slots)
+      same = [(a, b_) for ai, a in enumerate(names) for b_ in names[ai + 1:] if np.array_equal(slots[a], slots[b_])]
+      if same:
+        ctx.violation(f'agg:{name}:randomness-reused-across-slots', f'{name}: (round, client position) slots {same[:4]} quantise the same vector to bit-identical values '
+                      f'(state threaded through the rounds)', replay={'aggregator': name, 'slots': [list(map(list, p)) for p in same[:6]]})
     # arithmetic coding: per round the increment is the documented per-client cost; with one client it can be recomputed from the returned tree
     if name == 'uniform_arithmetic':
       st = agg.init()
